@@ -190,6 +190,10 @@ func (s *Stream) reset() {
 
 func (s *Stream) readBuf() []byte {
 	if s.filledBuffer {
+		if size := int64(len(s.buf)); s.bufSize < size {
+			// the window has grown (invalid bytes replaced by U+FFFD in place)
+			s.bufSize = size
+		}
 		s.bufSize *= 2
 		remainBuf := s.buf
 		s.buf = make([]byte, s.bufSize)
